@@ -452,6 +452,24 @@ def proj_rec(R, r):
             "sid": iv(r.server_id) if r.server_id is not False else 0}
 
 
+def proj_tracker(R):
+    trk = R.Q.statetracker
+    st = getattr(trk, "state", None)
+    name = type(trk).__name__
+    d = {"a": [], "b": [], "m": [], "inc": int(getattr(trk, "increment", 1)),
+         "hl": len(trk.history), "ht": R.tk(trk.history[-1][0], "hist")}
+    if name == "SystemPopulation":
+        d["a"] = [int(st)]
+    elif name in ("NodePopulation", "NodePopulationSubset", "GroupedNodePopulation"):
+        d["a"] = [int(v) for v in st]
+    elif name in ("NodeClassMatrix", "NaiveBlocking"):
+        d["b"] = [[int(v) for v in row] for row in st]
+    elif name == "MatrixBlocking":
+        d["m"] = [[[int(v) for v in cell] for cell in row] for row in st[0]]
+        d["a"] = [int(v) for v in st[-1]]
+    return d
+
+
 def project(R):
     """abstract state of the live simulation (DESIGN appendix B)"""
     Q = R.Q
@@ -485,6 +503,7 @@ def project(R):
           "cu": [proj_cust(R, i) for i in order],
           "exit": [i.id_number for i in ex.all_individuals],
           "unchecked": bool(Q.unchecked_blockage),
+          "trk": proj_tracker(R),
           }
     return st
 
